@@ -35,9 +35,9 @@ func funcID(f *types.Func) string {
 	}
 	sig, _ := f.Type().(*types.Signature)
 	if sig != nil && sig.Recv() != nil {
-		return pk + "." + recvNamed(sig.Recv().Type()) + "." + f.Name()
+		return pk + "." + recvNamed(sig.Recv().Type()) + "." + aliasName(f)
 	}
-	return pk + "." + f.Name()
+	return pk + "." + aliasName(f)
 }
 
 func isMapType(t types.Type) bool {
